@@ -205,6 +205,19 @@ def standin_ionq(tier, seed):
             fails.append(dict(args=dict(circuit=repr(c), metadata=repr(md)), failed="measurement-metadata", clause=f"keys map to {got}, expected {want_md}"))
         if len(fails) >= 4:
             break
+    # measurement options the job description has no place for (only key and targets travel with it): refused, not dropped
+    qm = cirq.LineQubit.range(2)
+    for label, m_ in (("invert mask", cirq.measure(qm[0], qm[1], key="k", invert_mask=(True, False))), ("partial invert mask", cirq.measure(qm[0], qm[1], key="k", invert_mask=(False, True))),
+                      ("confusion map", cirq.measure(qm[0], key="k", confusion_map={(0,): np.array([[0.9, 0.1], [0.2, 0.8]])}))):
+        cases += 1
+        try:
+            sp = ser.serialize_single_circuit(cirq.Circuit(cirq.X(qm[0]), m_))
+            fails.append(dict(args=dict(measurement=repr(m_), payload=json.dumps(sp.input)[:200], metadata=repr(sp.metadata)), failed="measurement-option-dropped",
+                              clause=f"a measurement with a {label} is serialized with key and targets only: the option is silently dropped (the results come back unaltered)"))
+        except ValueError:
+            pass
+        except Exception as ex:
+            fails.append(dict(args=dict(measurement=repr(m_)), failed="measurement-option-dropped", clause=f"a measurement with a {label} raised {type(ex).__name__} instead of being refused"))
     # circuits outside the vocabulary go through the vendor's own compilation first (IonQTargetGateset and the native gatesets): the payload of the
     # COMPILED circuit still means the submitted circuit; three-qubit gates and their powers on every order of the qubits included
     import itertools as _it
